@@ -41,7 +41,8 @@ def gen_synthetic(run, i):
     h, w = rng.randint(20, 70), rng.randint(20, 70)
     model = MODELS[i % 3]
     # (the API accepts any threshold; R2 of a poor fit is negative, of an exact fit 1.0)
-    thresh = rng.choice([0.25, 0.25, 0.5, 0.0, None, -0.3, 1.5, 1.0]) if model == 'gain_offset' else 0.25
+    # 1e-05: a threshold whose repr has no decimal point (the FUSE_R2_INPAINT_THRESH tag then is not a YAML float - finding D26)
+    thresh = rng.choice([0.25, 0.25, 0.5, 0.0, None, -0.3, 1.5, 1.0, 1e-05]) if model == 'gain_offset' else 0.25
     if model == 'gain_offset' and i % 9 == 2:
         thresh = 1.0          # the top of the documented range: pixels with R2 exactly 1.0 (an exact fit) are NOT below it
     data = np.zeros((3 * n, h, w), dtype='float32')
@@ -178,7 +179,7 @@ def run(run: common.Run):
         sv[:, : src.w // 4] = rng.random() < 0.5
         pair = fusion.write_pair(tmp, f'c12f{f}', src, ref, s, r, sv, None)
         model = ['gain-offset', 'gain-blk-offset'][f % 2]
-        thresh = [0.25, None, 0.5][f % 3]
+        thresh = [1e-05, None, 0.5, 0.25, 2e-05][f % 5]
         try:
             res = fusion.run_fuse(pair.src_path, pair.ref_path, tmp / f'c12f{f}_out.tif', model=model, kernel_shape=(3, 3),
                                   param=True, threads=1, model_config=dict(r2_inpaint_thresh=thresh),
